@@ -5,16 +5,46 @@ warnings.filterwarnings("ignore")
 import numpy as np
 
 
-def build_X(case):
+def build_X(case, part=None):
+    """part: None = the case's own corpus; otherwise a dict {"docs": ..., "shift": ...} of the same kind
+    (the estimator's past, or the corpus of a later transform)."""
     kind = case["kind"]
+    src = case if part is None else part
+    docs = src["docs"]
     if kind in ("token", "ngram"):
-        return [list(d) for d in case["docs"]]
+        return [list(d) for d in docs]
     if kind == "timed":
-        sh = float(case.get("shift", 0.0))
-        return [[(t, ticks / 8.0 + sh) for t, ticks in d] for d in case["docs"]]
+        sh = float(src.get("shift", 0.0))
+        return [[(t, ticks / 8.0 + sh) for t, ticks in d] for d in docs]
     if kind == "multi":
-        return [[list(ms) for ms in d] for d in case["docs"]]
+        return [[list(ms) for ms in d] for d in docs]
     raise ValueError(kind)
+
+
+def live_past(m, case):
+    """The estimator's past: the SAME object is first fitted on another corpus (and used for transform).  Whatever
+    happens there (exceptions included) must be forgotten by the fit that is measured afterwards."""
+    hist = case.get("history")
+    if not hist:
+        return None
+    state = []
+    try:
+        Xh = build_X(case, hist)
+        if hist.get("how") == "fit":
+            m.fit(Xh)
+        else:
+            m.fit_transform(Xh)
+        state.append("fit")
+        if hist.get("transform") is not None:
+            m.transform(build_X(case, {"docs": hist["transform"], "shift": hist.get("shift", 0.0)}))
+            state.append("transform")
+    except Exception as e:
+        state.append(type(e).__name__)
+    return state
+
+
+def matrix_out(M):
+    return {"shape": [int(M.shape[0]), int(M.shape[1])], "triples": triples(M)}
 
 
 def make(case):
@@ -59,6 +89,7 @@ def run(case):
     if case["kind"] == "em_direct":
         return run_em_direct(case)
     m = make(case)
+    past = live_past(m, case)
     X = build_X(case)
     how = case.get("how", "fit_transform")
     events = None
@@ -85,6 +116,20 @@ def run(case):
         out["delta_mean"] = float(m.delta_mean_)
     if events is not None:
         out["events"] = events
+    if past is not None:
+        out["past"] = past
+    then = case.get("then")
+    if then:
+        # later use of the fitted estimator: transform (after an optional unrelated transform call)
+        try:
+            if then.get("ignored") is not None:
+                m.transform(build_X(case, {"docs": then["ignored"], "shift": then.get("shift", 0.0)}))
+            T = m.transform(X if then["docs"] == "same" else build_X(case, then))
+            out["then"] = matrix_out(T)
+            out["then"]["vocab"] = {str(k): int(v) for k, v in m.token_label_dictionary_.items()}
+            out["then"]["radii"] = [[int(x) for x in row] for row in np.asarray(m._window_len_array)]
+        except Exception as e:
+            out["then"] = {"err": type(e).__name__, "msg": str(e)[:300], "tb": traceback.format_exc()[-600:]}
     return {"ok": out}
 
 
